@@ -495,7 +495,7 @@ func (l *Line) appendIP6(ip net.IP) {
 			if ip[j*2] != 0x00 || ip[j*2+1] != 0x00 {
 				break
 			}
-			if zeros := j - i; zeros > 1 && zeros > endZ-startZ { // longer than previous ?
+			if zeros := j - i; zeros > 0 && zeros > endZ-startZ { // two or more zero groups, longer than previous ?
 				startZ = i
 				endZ = j
 			}
